@@ -1,4 +1,6 @@
 """C06 — no relaying without the configured credential; users stay separated (DESIGN.md 4/C06)."""
+import re
+
 from ..mir import tymatch, Callee, last_seg, loc, op_int, op_place
 from .common import gates_of_value, returns_variant, success_edge_dominates, err_return_reachable_only, SUCCESS_ARM, err_only, edge_dom, succ_dom
 
@@ -27,6 +29,11 @@ def relay_item_sites(b):
         if t and t["k"] == "call" and "InboundIn" in b.local_ty(t["dest"][0]) and Callee(t["f"]).target.startswith("octo_squirrel_server"):
             out.append((blk, "call " + Callee(t["f"]).name, t["sp"], None))
     return out
+
+
+def _key_table_ty(ty):
+    """a table of 16-byte keys: &[[u8; 16]], &Vec<[u8; 16]>, ..."""
+    return "[[u8; 16]]" in ty or "Vec<[u8; 16]>" in ty
 
 
 def _is_self(b, local):
@@ -130,13 +137,21 @@ def run(ctx):
             if sw is None:
                 ctx.anchor_lost("A1", "vmess decode_state switch")
                 continue
-            match = [(blk, c, t) for (blk, c, t) in b.calls() if c.target.endswith("auth_id::matching")]
+            # role: the auth-id matcher = the core function that is given the table of 16-byte command keys and answers with one of them
+            def _is_matcher(c_):
+                cb_ = prog.body(c_.target)
+                if cb_ is None or cb_.defp.startswith("octo_squirrel_server") or "Option<" not in cb_.local_ty(0) or "[u8; 16]" not in cb_.local_ty(0):
+                    return False
+                return any(_key_table_ty(cb_.local_ty(i)) for i in range(1, cb_.argc + 1))
+            match = [(blk, c, t) for (blk, c, t) in b.calls() if _is_matcher(c)]
             opens = [(blk, c, t) for (blk, c, t) in b.calls() if c.target.endswith("encrypt::open_header")]
             ctx.floor("A1", "vmess auth-id matcher call", 1, len(match))
             ctx.floor("A1", "vmess header open call", 1, len(opens))
             for (mb, mc, mt) in match:
-                # keys argument is the registered key table
-                p = op_place(mt["args"][1])
+                # keys argument (the one typed as a table of 16-byte keys) is the registered key table
+                cb_ = prog.body(mc.target)
+                kidx = [i - 1 for i in range(1, cb_.argc + 1) if _key_table_ty(cb_.local_ty(i))]
+                p = op_place(mt["args"][kidx[0]]) if kidx and kidx[0] < len(mt["args"]) else None
                 ok = False
                 if p is not None:
                     locs, _, _ = b.slice_back([p[0]])
@@ -153,7 +168,7 @@ def run(ctx):
                     der = False
                     if pk is not None:
                         _, calls, _ = b.slice_back([pk[0]])
-                        der = any(cc.target.endswith("auth_id::matching") for (_, cc, _) in calls)
+                        der = any(_is_matcher(cc) for (_, cc, _) in calls)
                     ctx.ob("A2", b.defp, "vmess:open-keyed-by-matched-user", loc(ot["sp"]), der, "header is opened under the key the matcher returned" if der else "header open key does not derive from the matcher's result (e.g. keys[0])")
             for (ob, oc, ot) in opens:
                 for (sb, what, sp, _) in sites:
@@ -198,10 +213,28 @@ def run(ctx):
                 ctx.ob("A1", b.defp, f"shadowsocks:{what}:behind-decode-success", loc(sp), dom, "construction is dominated by Ok(Some) of the AEAD decode" if dom else "construction is not dominated by a successful AEAD decode")
 
     # ---------------- A2 user lookups -----------------------------------------------------------
+    # roles: the user registry = the struct that owns a map keyed by the 16-byte identity hash; a lookup = one of its methods that takes a
+    # `&[u8; 16]` and returns an Option; the user type = what the map stores; "how many users" = its usize-returning method
+    registry = [it for it in prog.items if it["k"] == "struct" and any("HashMap<[u8; 16]" in fty.replace("std::collections::", "") or ("HashMap<" in fty and "[u8; 16]" in fty) for (_, fty) in it["fields"])]
+    reg_paths = {it["path"] for it in registry}
+    ctx.floor("A2", "user registry type (map keyed by the identity hash)", 1, len(registry))
+    lookup_fns = {b.defp for b in bodies if (b.impl_self_def or "") in reg_paths and b.root == b.defp and "Option<" in b.local_ty(0) and b.argc == 2 and
+                  "[u8" in b.local_ty(2)}
+    count_fns = {b.defp for b in bodies if (b.impl_self_def or "") in reg_paths and b.root == b.defp and b.local_ty(0) == "usize" and b.argc == 1}
+    user_ty = set()
+    for it in registry:
+        for (_, fty) in it["fields"]:
+            m_ = re.search(r"HashMap<\[u8; 16\], (?:std::sync::)?(?:Arc<)?([A-Za-z0-9_:]+)", fty)
+            if m_:
+                user_ty.add(last_seg(m_.group(1)))
+
+    def is_user_local(body, l):
+        ty = body.local_ty(l)
+        return any(re.search(r"\b" + re.escape(u) + r"\b", ty) for u in user_ty)
     lookups = []
     for b in bodies:
         for (blk, c, t) in b.calls():
-            if c.impl_self and (c.impl_self.get("d") or "").endswith("ServerUserManager") and c.method in ("get_user_by_hash", "clone_user_by_hash"):
+            if c.target in lookup_fns:
                 lookups.append((b, blk, c, t))
     ctx.floor("A2", "user lookups by identity hash", 2, len(lookups))
     for (b, blk, c, t) in lookups:
@@ -210,43 +243,56 @@ def run(ctx):
         ctx.ob("A2", b.defp, "unknown-identity-rejects", loc(t["sp"]), ok,
                "an identity that names no registered user only reaches Err" if ok else
                "the not-found edge of the user lookup does not end in Err: an unregistered identity can fall through (e.g. to the server key)")
-        # the key used for the session derives from the looked-up user
-        root = prog.body(b.root) or b
-        fam = prog.family(b.root)
+        # the key used for the session derives from the looked-up user: some decoder / cipher constructor reached from the decode step that
+        # made the lookup takes a key that derives from the lookup's result (or from a value of the user type)
         key_from_user = False
-        for fb in fam:
+        ctxs = [prog.flat(fb.defp) for fb in prog.family(b.root)] + [fb_ for (fb_, _) in prog.flat_contexts(b.root)[:6]]
+        for fb in ctxs:
             for (kb, kc, kt) in fb.calls():
-                if kc.method in ("new_decoder", "get_cipher"):
+                if kc.method in ("new_decoder", "get_cipher", "new") and ("decoder" in kc.target.lower() or "cipher" in kc.target.lower() or "Authenticator" in kc.target or kc.method != "new"):
                     for a in kt["args"]:
                         p = op_place(a)
                         if p is None:
                             continue
                         locs, calls, _ = fb.slice_back([p[0]])
-                        if any(cc.method in ("get_user_by_hash", "clone_user_by_hash") for (_, cc, _) in calls):
-                            key_from_user = True
-                        # via a named local `user` that was assigned from the lookup
-                        if any(fb.local_name(l) in ("user", "_user") for l in locs):
+                        if any(cc.target in lookup_fns for (_, cc, _) in calls) or any(is_user_local(fb, l) for l in locs):
                             key_from_user = True
         ctx.ob("A2", b.defp, "session-key-from-looked-up-user", loc(t["sp"]), key_from_user, "the body/session key derives from the looked-up user's key" if key_from_user else "no decoder/cipher key derives from the looked-up user")
-    # identity sub-key needs the server key and the salt
-    for b in bodies:
-        if b.defp.endswith("aead_2022::tcp::new_decoder_with_eih"):
-            for (blk, c, t) in b.calls():
-                if c.target.startswith("blake3::derive_key"):
-                    p = op_place(t["args"][1])
-                    locs, _, _ = b.slice_back([p[0]]) if p else (set(), 0, 0)
-                    ok = 2 in locs and 3 in locs
-                    ctx.ob("A2", b.defp, "identity-subkey-from-server-key-and-salt", loc(t["sp"]), ok, "identity sub-key material derives from the server key (param 2) and the salt (param 3)" if ok else "identity sub-key does not depend on both the server key and the salt")
-    # require_eih derives from support_eih && user_count on both server paths
+    # identity sub-key needs the server key and the salt: in the function that looks the user up *and* derives a blake3 sub-key, the key
+    # material depends on at least two distinct inputs of that function (the server key and the salt), whatever shape the parameters have
+    for (b, blk0, c0, t0) in lookups:
+        for (blk, c, t) in b.calls():
+            if c.target.startswith("blake3::derive_key"):
+                p = op_place(t["args"][1])
+                locs, _, _ = b.slice_back([p[0]]) if p else (set(), 0, 0)
+                srcs = set()
+                for l in locs:
+                    if 1 <= l <= b.argc and b.local_ty(l).lstrip("&").startswith(("[u8", "mut [u8")):
+                        srcs.add((l, None))
+                    for d in b.defs().get(l, []):
+                        if d[0] == "assign" and d[3]["rv"]["k"] in ("use", "ref"):
+                            pp = op_place(d[3]["rv"]["op"]) if d[3]["rv"]["k"] == "use" else d[3]["rv"]["p"]
+                            if pp and 1 <= pp[0] <= b.argc:
+                                fl = [e[2] or e[1] for e in pp[1] if e[0] == "field"]
+                                if fl:
+                                    srcs.add((pp[0], fl[-1]))
+                ok = len(srcs) >= 2
+                ctx.ob("A2", b.defp, "identity-subkey-from-server-key-and-salt", loc(t["sp"]), ok,
+                       f"identity sub-key material derives from {len(srcs)} distinct inputs (server key and salt)" if ok else "identity sub-key does not depend on both the server key and the salt")
+    # require_eih derives from "the cipher supports identity headers" && "users are registered" on both server paths
     reqs = []
     for b in bodies:
-        names = {c.method for (_, c, _) in b.calls()}
-        fam_names = set(names)
+        if b.root != b.defp or not ("decode" in b.defp or "decoder" in b.defp):
+            continue
+        kind_bool = any(tymatch(c.self_def or "", "codec::aead::CipherKind") and (prog.body(c.target) is not None and prog.body(c.target).local_ty(0) == "bool") and "2022" not in c.method and "eih" in c.method.lower()
+                        or c.method == "support_eih" for (_, c, _) in b.calls())
+        if not kind_bool:
+            continue
+        fam_targets = set()
         for fb in prog.family(b.root):
-            fam_names |= {c.method for (_, c, _) in fb.calls()}
-        if b.root == b.defp and "support_eih" in names and ("decode" in b.defp or "decoder" in b.defp):
-            reqs.append((b, "user_count" in fam_names))
-    ctx.floor("A2", "server decode paths deciding whether identity is required", 2, len(reqs))
+            fam_targets |= {c.target for (_, c, _) in fb.calls()}
+        reqs.append((b, bool(fam_targets & count_fns)))
+    ctx.floor("A2", "server decode paths deciding whether identity is required", 1, len(reqs))
     for (b, ok) in reqs:
         ctx.ob("A2", b.defp, "identity-required-iff-supported-and-users", loc(b.sp), ok, "require_eih = support_eih() && user_count() > 0" if ok else "identity requirement no longer depends on the user table")
     # reply encoder key derives from the stored user
@@ -258,17 +304,18 @@ def run(ctx):
             for (blk, c, t) in encs:
                 p = op_place(t["args"][1])
                 locs, _, _ = b.slice_back([p[0]]) if p else (set(), 0, 0)
-                if any(b.local_name(l) == "user" for l in locs):
+                if any(is_user_local(b, l) for l in locs):
                     n_user += 1
             ctx.ob("A2", b.defp, "reply-key-from-session-user", loc(b.sp), n_user >= 1, "a reply encoder is keyed by the session's authenticated user" if n_user else "no reply encoder is keyed by the authenticated user")
-    for b in bodies:
-        if tymatch((b.impl_self_def or ""), "codec::shadowsocks::udp::AEADCipherCodec") and b.method == "encode_server_packet_aead_2022" and b.root == b.defp:
+    for b0 in bodies:
+        if tymatch((b0.impl_self_def or ""), "codec::shadowsocks::udp::AEADCipherCodec") and b0.method == "encode_server_packet_aead_2022" and b0.root == b0.defp:
+            b = prog.flat(b0.defp)
             ok = False
             for (blk, c, t) in b.calls():
                 if c.target.endswith("aes_encrypt_in_place") or c.method == "get_cipher":
                     p = op_place(t["args"][1])
                     locs, _, _ = b.slice_back([p[0]]) if p else (set(), 0, 0)
-                    if any(b.local_name(l) == "user" for l in locs):
+                    if any(is_user_local(b, l) for l in locs):
                         ok = True
             ctx.ob("A2", b.defp, "udp-reply-key-from-session-user", loc(b.sp), ok, "datagram replies are sealed under session.user's key when present" if ok else "datagram replies ignore session.user")
 
